@@ -429,7 +429,52 @@ def translate_server_loops(tree):
             "task_group.create_task(self._send_loop(), name='server-rpc-send-loop')" not in text or \
             "async with asyncio.TaskGroup() as task_group" not in text:
         raise TranslatorError("RPCServerConnection.serve: the two loops are not run in one TaskGroup")
-    return none_rule, "RIFromRequest"
+    return none_rule, "RIFromRequest", translate_completed_queue(tree, cls)
+
+
+def translate_completed_queue(tree, cls):
+    """The capacity of RPCServerConnection._completed (the replies waiting for the send loop).
+
+    `_queue_reply` runs in a done callback and uses `put_nowait`: on a bounded queue that raises QueueFull where nobody
+    sees it and the reply is lost. Returns None for an unbounded queue (`factory=asyncio.Queue`, or maxsize <= 0), the
+    bound for `factory=partial(asyncio.Queue, K)` / `partial(asyncio.Queue, maxsize=K)` / `lambda: asyncio.Queue(K)`
+    with K a constant integer expression over module-level integer constants; any other shape fails closed."""
+    fields = [st for st in cls.body if isinstance(st, ast.AnnAssign) and isinstance(st.target, ast.Name)
+              and st.target.id == "_completed"]
+    if len(fields) != 1 or not isinstance(fields[0].value, ast.Call) or _u(fields[0].value.func) != "attrs.field":
+        raise TranslatorError("RPCServerConnection._completed: field definition not recognised")
+    kw = {k.arg: k.value for k in fields[0].value.keywords}
+    if fields[0].value.args or set(kw) != {"init", "factory"} or _u(kw["init"]) != "False":
+        raise TranslatorError("RPCServerConnection._completed: attrs.field arguments changed: " + _u(fields[0].value)[:120])
+    for node in ast.walk(tree):   # nobody may replace the queue afterwards
+        if isinstance(node, (ast.Assign, ast.AugAssign, ast.AnnAssign)) and node is not fields[0]:
+            targets = node.targets if isinstance(node, ast.Assign) else [node.target]
+            if any(_u(t).endswith("._completed") for t in targets):
+                raise TranslatorError("RPCServerConnection._completed is assigned outside its field definition")
+    ints = {}
+    for st in tree.body:
+        if isinstance(st, ast.Assign) and len(st.targets) == 1 and isinstance(st.targets[0], ast.Name):
+            try:
+                ints[st.targets[0].id] = _eval_int(st.value, ints)
+            except TranslatorError:
+                pass
+    fac = kw["factory"]
+    if _u(fac) == "asyncio.Queue":
+        return None
+    call = None
+    if isinstance(fac, ast.Call) and _u(fac.func) in ("partial", "functools.partial") and fac.args \
+            and _u(fac.args[0]) == "asyncio.Queue":
+        call = (fac.args[1:], fac.keywords)
+    elif isinstance(fac, ast.Lambda) and not fac.args.args and isinstance(fac.body, ast.Call) \
+            and _u(fac.body.func) == "asyncio.Queue":
+        call = (fac.body.args, fac.body.keywords)
+    if call is None:
+        raise TranslatorError("RPCServerConnection._completed: factory is not asyncio.Queue: " + _u(fac)[:120])
+    args, kws = call
+    if len(args) + len(kws) != 1 or (kws and kws[0].arg != "maxsize"):
+        raise TranslatorError("RPCServerConnection._completed: queue arguments not recognised: " + _u(fac)[:120])
+    bound = _eval_int(args[0] if args else kws[0].value, ints)
+    return None if bound <= 0 else bound
 
 
 def translate_clients(tree):
@@ -542,7 +587,7 @@ def generate():
     cap = translate_capture(tree)
     usage, te_steps = translate_remote_failure(tree)
     rr = translate_raise_remote(tree)
-    none_rule, rid = translate_server_loops(tree)
+    none_rule, rid, qbound = translate_server_loops(tree)
     translate_clients(tree)
     allowed, other = director_allow_list()
 
@@ -580,6 +625,9 @@ def generate():
         f"Definition server_none_rule : none_rule := {none_rule}.",
         "Definition client_none_rule : none_rule := NoneIsError.",
         f"Definition reply_id_source : reply_id_rule := {rid}.",
+        "(* capacity of RPCServerConnection._completed; None = unbounded. _queue_reply uses put_nowait in a done",
+        "   callback: on a full queue the reply is lost *)",
+        f"Definition completed_maxsize : option nat := {opt(qbound)}.",
         "(* @allow_rpc methods of DirectorHandler *)",
         "Definition director_allowed : list str := [",
         ";\n".join(f"  {coq_str(n)} (* {n} *)" for n in allowed),
